@@ -88,11 +88,11 @@ Definition has_prefix (p : string) (s : string) : bool := prefix p s.
 Definition fuel := 4.
 
 Lemma total_check :
-  forallb (fun f => esc_within [] (escapes functions fuel f)) public_functions = true.
+  forallb (fun f => esc_within [] (escapes functions checker_raises fuel f)) public_functions = true.
 Proof. vm_compute. reflexivity. Qed.
 
 (* nothing leaves any public check function *)
-Lemma total f : In f public_functions -> escapes functions fuel f = EscOk [].
+Lemma total f : In f public_functions -> escapes functions checker_raises fuel f = EscOk [].
 Proof.
   intros Hf. pose proof total_check as H. rewrite forallb_forall in H.
   destruct (esc_within_spec _ _ (H f Hf)) as [l [E Hl]]. rewrite E. f_equal.
